@@ -606,6 +606,60 @@ theorem expandDict_not_diverges (rk : Str → Nat) (m : Dict Str) (hr : RankedBy
         | ok r => simp
         | error e => rw [hx] at iht; simpa using iht
 
+/-! ## 3b. totality from what a value can reach (no condition on macros the value does not reach) -/
+
+/-- every macro the value reaches is defined, to depth `f` (so no cycle on the way): the expansion returns a text
+without placeholders, within `f` passes -/
+theorem expandValue_total_deep (m : Dict Str) (f : Nat) (v : Str)
+    (hd : ∀ n ∈ phNames v, definedDeep m f n = true) : ∃ r, expandValue m f v = .ok r ∧ hasPh r = false := by
+  induction f generalizing v with
+  | zero =>
+    have : phNames v = [] := by
+      cases h : phNames v with
+      | nil => rfl
+      | cons x t => have := hd x (by rw [h]; simp); simp [definedDeep] at this
+    have hp := (hasPh_false_iff v).mpr this
+    exact ⟨v, by simp [expandValue, hp], hp⟩
+  | succ f ih =>
+    simp only [expandValue]
+    by_cases hp : hasPh v = true
+    · simp only [hp, if_true]
+      have hdef : ∀ n ∈ segNames (toks none v), (dget m n).isSome := by
+        intro n hn
+        have := hd n hn
+        simp only [definedDeep] at this
+        cases hb : dget m n with
+        | none => simp [hb] at this
+        | some b => rfl
+      obtain ⟨v', hs⟩ := substSegs_defined m (toks none v) hdef
+      have hs' : subPass m v = .ok v' := hs
+      simp only [hs']
+      apply ih v'
+      intro n hn
+      rw [subPass_phNames m v v' hs'] at hn
+      obtain ⟨k, hk, hnk⟩ := List.mem_flatMap.mp hn
+      obtain ⟨body, hb, hnb⟩ := mem_bodyPhs m k n hnk
+      have := hd k hk
+      simp only [definedDeep, hb] at this
+      exact List.all_eq_true.mp this n hnb
+    · have hp' : hasPh v = false := by simpa using hp
+      exact ⟨v, by simp [hp'], hp'⟩
+
+theorem expandDict_total_deep (m : Dict Str) (f : Nat) (d : Dict PVal) (h : propsDeepB m f d = true) :
+    ∃ ex, expandDict f m d = .ok ex := by
+  induction d with
+  | nil => exact ⟨[], rfl⟩
+  | cons x t ih =>
+    unfold propsDeepB at h
+    simp only [List.all_cons, Bool.and_eq_true] at h
+    obtain ⟨ex, hex⟩ := ih (by unfold propsDeepB; exact h.2)
+    obtain ⟨k, pv⟩ := x
+    cases pv with
+    | fn i => exact ⟨(k, .fn i) :: ex, by simp [expandDict, hex]⟩
+    | pat s =>
+      obtain ⟨r, hr', _⟩ := expandValue_total_deep m f s (fun n hn => List.all_eq_true.mp h.1 n hn)
+      exact ⟨(k, .pat r) :: ex, by simp [expandDict, hr', hex]⟩
+
 /-! ## 4. the executable checks -/
 
 theorem maxRank_some (rk : Str → Option Nat) (l : List Str) (b : Nat) (h : maxRank rk l = some b) :
@@ -808,6 +862,17 @@ theorem init_ok_of_checks (cfg : Cfg) (l : List ProfileDef) (hnd : (l.map (·.na
     ⟨by simp [empty], by simp [empty, dget], by simp [empty, dget], SameEnv.refl _, rfl, by simp [empty], rfl⟩
   have := addProfiles_empty_ok cfg (empty cfg) l hinv rfl hnd
     (fun d hd => expandDict_ok_of_checks _ _ _ hac hcl (hpc d hd) hf)
+  unfold init
+  simp [this]
+
+/-- the same from what the properties reach: every macro a property uses is defined, and so on down, within the
+fuel — nothing is asked of macros no property reaches -/
+theorem init_ok_of_deep (cfg : Cfg) (l : List ProfileDef) (hnd : (l.map (·.name)).Nodup)
+    (hpd : ∀ d ∈ l, propsDeepB (bulkEnv cfg.base l) cfg.fuel d.props = true) : (init cfg l).2 = none := by
+  have hinv : Inv cfg (empty cfg) :=
+    ⟨by simp [empty], by simp [empty, dget], by simp [empty, dget], SameEnv.refl _, rfl, by simp [empty], rfl⟩
+  have := addProfiles_empty_ok cfg (empty cfg) l hinv rfl hnd
+    (fun d hd => expandDict_total_deep _ _ _ (hpd d hd))
   unfold init
   simp [this]
 
